@@ -24,7 +24,15 @@ ROOT = os.path.dirname(os.path.dirname(os.path.abspath(__file__)))
 HARNESSES = {
     "C13": [{"template": "c13_batching.krs", "harness": "c13_try_batching", "unwind": 6,
              "functions": ["raft::RaftCore::try_batching", "util::is_continuous_ents"],
-             "bound": "an outbox of 2 messages (any type, receiver 1 or 2, anchored contiguous entries, 0..=2 each) and 0..=2 new contiguous entries starting at any index",
+             "bound": "an outbox of 2 messages (any type, receiver 1 or 2, anchored contiguous entries, 0..=2 each) and 0..=2 new contiguous entries starting at any index < 100 (Kani); natively: every such case with indexes < 8 and runs of 0..=3 entries",
+             "native": {"dom8": 4, "dom64": 8},
+             "claim": "after try_batching every MsgAppend in the outbox is still a contiguous run of entries anchored at its own index (entries[k].index == msg.index + 1 + k)",
+             "obligation": "C13.kext.try_batching.anchored_contiguous"}],
+    # log matching between nodes (C05) rests on every MsgAppend being a contiguous run anchored at its own index: same harness
+    "C05": [{"template": "c13_batching.krs", "harness": "c13_try_batching", "unwind": 6,
+             "functions": ["raft::RaftCore::try_batching", "util::is_continuous_ents"],
+             "bound": "an outbox of 2 messages (any type, receiver 1 or 2, anchored contiguous entries, 0..=2 each) and 0..=2 new contiguous entries starting at any index < 100 (Kani); natively: every such case with indexes < 8 and runs of 0..=3 entries",
+             "native": {"dom8": 4, "dom64": 8},
              "claim": "after try_batching every MsgAppend in the outbox is still a contiguous run of entries anchored at its own index (entries[k].index == msg.index + 1 + k)",
              "obligation": "C13.kext.try_batching.anchored_contiguous"}],
     "C09": [{"template": "c09_scan.krs", "harness": "c09_has_unapplied_conf_changes", "unwind": 5,
@@ -40,6 +48,12 @@ def extract(repo, template, out_path):
     out, i, fns = [], 0, []
     while i < len(lines):
         ln = lines[i]
+        mu = re.match(r"\s*//@K fns-used (\S+) (\S+)\s*$", ln)
+        if mu:
+            # placeholder, resolved after the explicit extractions: every free function of <file> that the extracted texts call as <prefix>name(
+            out.append(("USED", mu.group(1), mu.group(2)))
+            i += 1
+            continue
         m = re.match(r"\s*//@K fn (\S+) (\S+)\s*$", ln)
         if not m:
             out.append(ln)
@@ -75,6 +89,40 @@ def extract(repo, template, out_path):
         out.append("// ---- extracted from %s (line %d)" % (rel, src.count("\n", 0, it.hdr_start) + 1))
         out.append(text)
         fns.append({"fn": qual, "source": rel, "line": src.count("\n", 0, it.hdr_start) + 1})
+    # resolve fns-used placeholders (transitively, within the named file)
+    texts = "\n".join(x for x in out if isinstance(x, str))
+    res = []
+    for x in out:
+        if isinstance(x, str):
+            res.append(x)
+            continue
+        _, rel, prefix = x
+        src = open(os.path.join(repo, rel)).read()
+        done, todo, chunk = set(), [], []
+        scan = texts
+        while True:
+            for nm in re.findall(re.escape(prefix) + r"(\w+)\s*\(", scan):
+                if nm not in done:
+                    done.add(nm)
+                    todo.append(nm)
+            if not todo:
+                break
+            nm = todo.pop(0)
+            it = rustlex.find_item(src, "fn", nm, impl_of=None)
+            if it is None or it.body_open is None:
+                raise AnchorLost("fn %s (called as %s%s) not found in %s" % (nm, prefix, nm, rel))
+            text = Rewriter("S").rewrite(src[it.hdr_start:it.body_close + 1])
+            text = re.sub(r"\bpub\(crate\) ", "pub ", text)
+            chunk.append("// ---- extracted from %s (line %d): called by the extracted text" % (rel, src.count("\n", 0, it.hdr_start) + 1))
+            chunk.append(text)
+            fns.append({"fn": nm, "source": rel, "line": src.count("\n", 0, it.hdr_start) + 1})
+            scan = text.replace("fn " + nm, "")
+            # calls inside the same file are unqualified
+            for nm2 in re.findall(r"\b(\w+)\s*\(", scan):
+                if nm2 not in done and rustlex.find_item(src, "fn", nm2, impl_of=None) is not None and nm2 not in ("Some", "Ok", "Err"):
+                    pass
+        res.extend(chunk)
+    out = res
     os.makedirs(os.path.dirname(out_path), exist_ok=True)
     open(out_path, "w").write("\n".join(out))
     return fns
@@ -91,6 +139,12 @@ def run(P, repo, build_dir, timeout=600):
             r["extracted"] = extract(repo, h["template"], path)
         except AnchorLost as e:
             r.update(status="undecided", reason="extractor anchor lost: %s" % e)
+            res.append(r)
+            continue
+        r["native"] = native(path, h)
+        if r["native"]["status"] == "fail":
+            # a concrete failing input on the extracted real text: decisive, whatever Kani says
+            r.update(status="fail", failed=[h["obligation"] + " (native exhaustive enumeration)"], output=r["native"]["input"], cmd=r["native"]["cmd"])
             res.append(r)
             continue
         cmd = ["kani", os.path.basename(path), "--harness", h["harness"]]
@@ -125,6 +179,85 @@ def run(P, repo, build_dir, timeout=600):
             r.update(status="undecided", reason="kani did not finish: " + out[-400:])
         res.append(r)
     return res
+
+
+NATIVE_SHIM = r"""
+// ---- native exhaustive back end (vx/kext.py): the Kani API over small enumerated domains; every run replays a choice vector
+#[allow(unused)]
+mod kani {
+    use std::cell::RefCell;
+    thread_local! { pub static CH: RefCell<(Vec<(u64, u64)>, usize)> = RefCell::new((vec![], 0)); }
+    pub struct Abort;
+    pub fn choose(n: u64) -> u64 { CH.with(|c| { let mut c = c.borrow_mut(); let pos = c.1; if pos == c.0.len() { c.0.push((0, n)); } c.1 += 1; c.0[pos].0 }) }
+    pub trait Arbitrary { fn any() -> Self; }
+    impl Arbitrary for bool { fn any() -> bool { choose(2) == 1 } }
+    impl Arbitrary for u8 { fn any() -> u8 { choose(__DOM8__) as u8 } }
+    impl Arbitrary for u64 { fn any() -> u64 { choose(__DOM64__) } }
+    impl Arbitrary for usize { fn any() -> usize { choose(__DOM8__) as usize } }
+    pub fn any<T: Arbitrary>() -> T { T::any() }
+    pub fn assume(c: bool) { if !c { std::panic::resume_unwind(Box::new(Abort)); } }
+    macro_rules! cover { ($($t:tt)*) => { () }; }
+    pub(crate) use cover;
+}
+fn main() {
+    std::panic::set_hook(Box::new(|_| {}));
+    let mut runs: u64 = 0; let mut kept: u64 = 0;
+    loop {
+        kani::CH.with(|c| c.borrow_mut().1 = 0);
+        let r = std::panic::catch_unwind(|| { __HARNESS__(); });
+        runs += 1;
+        match r {
+            Ok(()) => kept += 1,
+            Err(e) => if e.downcast_ref::<kani::Abort>().is_none() {
+                let msg = e.downcast_ref::<String>().cloned().or_else(|| e.downcast_ref::<&str>().map(|s| s.to_string())).unwrap_or_default();
+                let choices: Vec<u64> = kani::CH.with(|c| c.borrow().0.iter().map(|x| x.0).collect());
+                println!("NATIVE-FAIL runs={} choices={:?} panic={:?}", runs, choices, msg);
+                std::process::exit(1);
+            }
+        }
+        let done = kani::CH.with(|c| { let mut c = c.borrow_mut(); let used = c.1; c.0.truncate(used); while let Some(&(v, n)) = c.0.last() { if v + 1 >= n { c.0.pop(); } else { break; } } match c.0.last_mut() { Some(x) => { x.0 += 1; false } None => true } });
+        if done { break; }
+        if runs > __MAXRUNS__ { println!("NATIVE-LIMIT runs={}", runs); std::process::exit(2); }
+    }
+    println!("NATIVE-OK runs={} completed={}", runs, kept);
+}
+"""
+
+
+def native(path, h, timeout=300):
+    """Second bounded back end: compile the SAME extracted file against a shim of the Kani API that enumerates small domains
+    exhaustively (u64: 0..dom64, u8/usize: 0..dom8, bool) and run it natively.  -> dict(status ok|fail|undecided, ...)"""
+    src = open(path).read()
+    src = re.sub(r"#\[kani::[^\]]*\]\s*", "", src)
+    dom = h.get("native", {})
+    shim = (NATIVE_SHIM.replace("__DOM8__", str(dom.get("dom8", 4))).replace("__DOM64__", str(dom.get("dom64", 8)))
+            .replace("__HARNESS__", h["harness"]).replace("__MAXRUNS__", str(dom.get("max_runs", 20000000))))
+    npath = path.replace(".rs", "_native.rs")
+    open(npath, "w").write(src + "\n" + shim)
+    exe = npath[:-3]
+    t0 = time.time()
+    try:
+        p = subprocess.run(["rustc", "--edition", "2021", "-O", "-A", "warnings", os.path.basename(npath), "-o", os.path.basename(exe)], cwd=os.path.dirname(npath),
+                           stdout=subprocess.PIPE, stderr=subprocess.STDOUT, timeout=timeout)
+        if p.returncode != 0:
+            return {"status": "undecided", "reason": "native build failed: " + p.stdout.decode(errors="replace")[-400:]}
+        q = subprocess.run([exe], stdout=subprocess.PIPE, stderr=subprocess.STDOUT, timeout=timeout)
+        out = q.stdout.decode(errors="replace").strip().splitlines()
+        last = out[-1] if out else ""
+    except subprocess.TimeoutExpired:
+        return {"status": "undecided", "reason": "native enumeration timed out after %ds" % timeout}
+    r = {"wall_s": round(time.time() - t0, 1), "cmd": "cd %s && rustc --edition 2021 -O %s && ./%s" % (os.path.dirname(npath), os.path.basename(npath), os.path.basename(exe)),
+         "domain": "u64 choices 0..%d, u8/usize choices 0..%d, bool; every combination the harness's own assumptions admit" % (dom.get("dom64", 8), dom.get("dom8", 4))}
+    if last.startswith("NATIVE-OK"):
+        m = re.search(r"runs=(\d+) completed=(\d+)", last)
+        r.update(status="ok", runs=int(m.group(1)), completed=int(m.group(2)))
+        if int(m.group(2)) == 0:
+            r.update(status="undecided", reason="vacuity guard: no run survived the harness's assumptions")
+    elif last.startswith("NATIVE-FAIL"):
+        r.update(status="fail", input=last)
+    else:
+        r.update(status="undecided", reason="native enumeration did not finish: " + last[:300])
+    return r
 
 
 def playback(r, timeout=600):
